@@ -285,6 +285,9 @@ Section Section::createSection(const std::string &name, const std::string &type)
 }
 
 Property Section::createProperty(const std::string &name, const DataType &dtype) {
+    if (dtype == DataType::Nothing || !Variant::supports_type(dtype)) {
+        throw std::invalid_argument("Section::createProperty: properties cannot hold values of the given DataType");
+    }
     util::checkEntityName(name);
     if (backend()->hasProperty(name)) {
         throw DuplicateName("hasProperty");
